@@ -131,6 +131,13 @@ public:
                 return *this;
             }
         }
+        if constexpr (std::is_integral_v<T>) {
+            if (lower == std::numeric_limits<T>::max()) {  // nothing is above the maximum
+                start = 1;
+                finish = 0;
+                return *this;
+            }
+        }
         start = std::max(next_value(lower), start);
         return *this;
     }
